@@ -757,8 +757,10 @@ where
         }
         if self.ax == self.adapters.len() {
             let res = self.next_inner().await;
-            if res.is_err() {
-                self.state = StreamState::Error;
+            match res {
+                Ok(None) if self.ax == 0 => self.state = StreamState::Done,
+                Err(_) => self.state = StreamState::Error,
+                _ => (),
             }
             return res;
         }
